@@ -32,6 +32,7 @@ type skel struct {
 	toks []string
 	ren  map[string]string // local name -> v<k> (alpha-normalisation, see alpha.go)
 	args bool              // calls are emitted with their arguments (storage code: which value goes into which column)
+	full bool              // every assignment is emitted, not only those to tracked fields (glue code no model mirrors)
 }
 
 func (k *skel) emit(s string) { k.toks = append(k.toks, alphaToken(s, k.ren)) }
@@ -206,7 +207,7 @@ func (k *skel) stmt(s ast.Stmt) {
 			k.expr(r)
 		}
 		for i, l := range x.Lhs {
-			if trackedLHS(l) {
+			if trackedLHS(l) || k.full {
 				rhs := ""
 				if len(x.Rhs) == len(x.Lhs) {
 					rhs = exprStr(x.Rhs[i])
